@@ -1,8 +1,9 @@
 /-
-  Refinement, part 1a: `replace_column` and the vector table.  The regenerated `create_vector` table is the documented rule
-  table (`vector_table_documented`), and the relations the model builds for `x = a op b`,
-  `x = y`, `x = const` mean exactly the calculus' rule at every choice (`binaryOp_den`,
-  `idAsgn_den`, `constAsgn_den`); `Analysis.unaryAsgn` is the documented rewriting.
+  Refinement, part 1a: `replace_column` (`replaceColumn_spec`) and the table tie: the regenerated
+  `create_vector` table is the documented rule table `Spec.operandFlow`, up to pymwp's numbering
+  of the two asymmetric alternatives (`vector_table_documented`).  The table is consulted only
+  through `simp [Gen.vectorTable]` on concrete class patterns: if the regenerated table changes,
+  the proof breaks.
 -/
 import Mwp.Lemmas.RelAlg
 import Mwp.Lemmas.RelFixA
